@@ -35,7 +35,25 @@ def make_excel(sheets):
 
 
 def translate(sheets, entry=None):
-    """Fast path: class text for the workbook (whole file, or from entry = (title, col, row))."""
+    """Class text for the workbook (whole file, or from entry = (title, col, row)) through the real Parser facade: everything
+    Parser._translate does (safety gate, translation, conversion of RecursionError, the check that the result compiles) runs;
+    only Excel.parse (openpyxl file reading) is replaced by the in-memory workbook."""
+    m = mods()
+    excel = make_excel(sheets)
+    Excel = m['Excel']
+    orig = Excel.__dict__['parse']
+    Excel.parse = classmethod(lambda cls, path: excel)
+    try:
+        p = m['Parser']().set_excel_file_path('<memory>')
+        if entry is not None:
+            p.set_entrypoint_cell(m['Cell'](*entry))
+        return p.get_translation()
+    finally:
+        Excel.parse = orig
+
+
+def translate_direct(sheets, entry=None):
+    """CellTranslator + Context without the facade (no compile check, no conversion of RecursionError)."""
     m = mods()
     excel = make_excel(sheets)
     ctx = m['Context']()
